@@ -186,7 +186,7 @@ impl Group for Overlap {
         "c05.overlap"
     }
     fn rule(&self) -> &'static str {
-        "one page with a vary rule on x-lang; k variants are cached, then a request for a new variant is started whose handler waits; meanwhile the page is cleared and requested again by j other variants (a new, shorter or longer entry); the handler is released; oracle: the waiting request is answered with its own variant (no panic in its task), every variant requested afterwards gets its own body, and — when variants were cached beforehand and nothing was cleared — every class was computed exactly once (a variant that joined the entry during the overlap is not lost when the waiting one joins); non-trivial = always"
+        "one page with a vary rule on x-lang; k variants are cached, then a request for a new variant is started whose handler waits; meanwhile the page is cleared and requested again by j other variants (a new, shorter or longer entry); the handler is released; oracle: the waiting request is answered with its own variant (no panic in its task), every variant requested afterwards gets its own body, and — when variants were cached beforehand and nothing was cleared — every class was computed exactly once (a variant that joined the entry during the overlap is not lost when the waiting one joins); the number of handler runs per class is compared with the model's run of the same looks, finishes and clears (`VaryConc.run`, incl. the first request on an uncached page that replaces what was stored meanwhile); non-trivial = always"
     }
     fn parallel(&self) -> bool {
         false
@@ -202,8 +202,18 @@ impl Group for Overlap {
         }
         v
     }
-    fn compare_with_model(&self, _line: &str) -> bool {
-        false
+    /// the scenario as looks, finishes and clears for `VaryConc.run` (classes aa=0 bb=1 cc=2 dd=3 zz=4 mm=5 nn=6)
+    fn driver_line(&self, line: &str) -> String {
+        let p: Vec<&str> = line.split(' ').collect();
+        let (k, j, clear): (usize, usize, bool) = (p[1].parse().unwrap(), p[2].parse().unwrap(), p[3] == "1");
+        let mut a: Vec<String> = Vec::new();
+        for c in 0..k { a.push(format!("l{c}")); a.push(format!("f{c}")); }
+        a.push("l4".into());
+        if clear { a.push("k".into()); }
+        for c in [5, 6].iter().take(j) { a.push(format!("l{c}")); a.push(format!("f{c}")); }
+        a.push("f4".into());
+        for c in [4, 0, 5, 1, 4] { a.push(format!("l{c}")); a.push(format!("f{c}")); }
+        format!("c05.conc {}", list(a))
     }
     fn run_impl(&self, _ctx: &Ctx, line: &str) -> String {
         let p: Vec<&str> = line.split(' ').collect();
@@ -276,10 +286,14 @@ impl Group for Overlap {
                 if *n != 1 { problems.push(format!("class {l} was computed {n} times although the page stayed cached")); }
             }
         }
-        if problems.is_empty() { "ok".into() } else { problems.join(" | ") }
+        let counts = OVERLAP_COUNTS.lock().unwrap().iter().map(|(l, n)| format!("{l}:{n}")).collect::<Vec<_>>().join(",");
+        if problems.is_empty() { format!("ok computations={counts}") } else { problems.join(" | ") }
+    }
+    fn classify(&self, _l: &str, o: &str) -> String {
+        o.to_owned()
     }
     fn oracle(&self, _ctx: &Ctx, line: &str, out: &str) -> Option<(String, String)> {
-        if out != "ok" {
+        if !out.starts_with("ok ") {
             return Some((format!("overlap:{line}"), out.to_owned()));
         }
         None
